@@ -277,6 +277,9 @@ def run(ctx, selftest=False):
     ctx.sample({"id": traces[0]["id"], "events": traces[0]["events"][:5]})
     verdicts = ctx.validate("SampleTableTrace", traces, timeout=3000)
     ctx.judge(traces, verdicts)
+    # the same operations under every short HISTORY of calls on one table (spec/History.tla): an answer may depend on the content only
+    from .. import history
+    history.check(ctx, "samples", {"C17"}, ("C17.",), selftest=selftest)
     if selftest or not quick:
         import copy
         muts = []
